@@ -220,6 +220,14 @@ def check_sfloat():
                 FAIL.append(("sfloat", "int", k, a))
             if _val(round(mk(k, a) * (1 << 10)).e) != round(float(kinds[k](a) * (1 << 10))):
                 FAIL.append(("sfloat", "round", k, a))
+        # NumPy's round-to-integral functions, incl. exact half-way values of both parities and negatives
+        for a in f64s[:6] + [0.5, 1.5, 2.5, -0.5, -1.5, -2.5, 1073741824.5, 1073741825.5, -3.25, 7.75]:
+            for nm in ("trunc", "round", "rint", "floor", "ceil"):
+                COUNT["sfloat"] += 1
+                want = res(getattr(np, nm)(kinds[k](a)))
+                got = res(getattr(fp.SNUMPY, nm)(mk(k, a)))
+                if got != want:
+                    FAIL.append(("sfloat", "np." + nm, k, a, got, want))
 
 
 def check_struct():
